@@ -469,7 +469,7 @@ def clauses(tier, seed):
 def _operator_clauses():
   """All sizes: every shallow-water explicit tendency is `clip_wavenumbers(...)` of an expression that contains the orography (operator-expression contract)."""
   from contracts import wind_contracts
-  return wind_contracts.sw_clauses()
+  return wind_contracts.sw_clauses() + wind_contracts.pe_clauses()
 
 
 MANIFEST = {
